@@ -289,6 +289,14 @@ class Gen:
         prop = self.rng.choice([q for q in ALL_PROPS if q != "Display"])
         a.styles[prop] = style_value(self.rng, prop)
       self.classes.add("styled-br")
+    if self.rng.random() < self.p["p_anim"] * 0.5:
+      # a br has no timing of its own but may carry animation steps (a <set> child in TTML)
+      prop = self.rng.choice(["Display", "Display", "Color", "Visibility"])
+      b, e = self.time(0.3), self.time(0.3)
+      if b is not None and e is not None and e <= b:
+        e = b + self.rng.choice([Fr(1, 2), Fr(1), Fr(2)])
+      a.anims.append((prop, b, e, style_value(self.rng, prop) if prop != "Display" else E("DisplayType", "none")))
+      self.classes.add("animated-br")
     return a
 
   def ruby_leaf(self, kind):
